@@ -26,8 +26,15 @@ const (
 func wsFramingViolation(k int) bool { return k <= mutControlLen64 }
 
 // wsAfterFramingViolation checks the state the property demands after a framing violation.
-func wsAfterFramingViolation(s *Stream) {
+func wsAfterFramingViolation(s *Stream, closedFirst bool) {
 	vf.Assert("state-closed-by-us", s.State() == StateClosedByUs)
+	if closedFirst {
+		// our own Close is already out: C08's "never more than one Close frame" governs; only the error
+		// and the refusal of writes are required
+		vf.Assert("no-second-close-queued", s.Pending() == 0)
+		vf.Assert("write-refused", s.Write([]byte("x"), TypeText) != nil)
+		return
+	}
 	vf.Assert("close-frame-queued", s.Pending() >= 1)
 	last := *s.pendingFrames[len(s.pendingFrames)-1]
 	vf.Assert("queued-frame-is-close-1002", vf.All(last.Opcode() == OpcodeClose, last.IsFIN(), last.PayloadLength() == 2))
@@ -115,6 +122,13 @@ func VerifC15_Session() {
 	t := &sonic.VerifTransport{In: sc.wire, Total: len(sc.wire), Concrete: true, MaxWSegs: 1, MaxSegs: vf.Bound("segments", 2, 3), SplitLimit: vf.Bound("split-limit", 2, 4)}
 	s := wsNewStream(t, max)
 	vf.Unwind(400)
+	// the violation may also arrive after the client has started the closing handshake itself and
+	// keeps reading for the peer's Close
+	closedFirst := vf.Bool("local-close-first")
+	if closedFirst {
+		vf.Assert("local-close-ok", s.Close(CloseNormal, "") == nil)
+		vf.Reach("closed-by-us-first")
+	}
 	frameLevelViolation := kind != mutContinuationWithoutMessage && kind != mutDataInsideMessage
 	switch vf.Choice("api", 2) {
 	case 0: // frame level
@@ -137,7 +151,7 @@ func VerifC15_Session() {
 				vf.Reach("frame-level-violation")
 				vf.Assert("violation-reported-by-frame-api", err != nil)
 				if wsFramingViolation(kind) {
-					wsAfterFramingViolation(s)
+					wsAfterFramingViolation(s, closedFirst)
 				}
 			} else {
 				// fragmentation rules are the message-level API's business
@@ -184,7 +198,7 @@ func VerifC15_Session() {
 		vf.Assert("violation-reported-by-message-api", err != nil)
 		vf.Assert("nothing-after-the-violation-delivered-as-data", delivered <= before)
 		if wsFramingViolation(kind) {
-			wsAfterFramingViolation(s)
+			wsAfterFramingViolation(s, closedFirst)
 		}
 	}
 	vf.Reach("end")
